@@ -19,7 +19,28 @@ FWB = FD + "field_wrap_BH.py"
 OC = "magpylib/_src/obj_classes/"
 IC_ = "magpylib/_src/input_checks.py"
 CO_ = "magpylib/_src/obj_classes/class_Collection.py"
+ST_ = "magpylib/_src/style.py"
+TU_ = "magpylib/_src/display/traces_utility.py"
+TMF = FD + "field_BH_triangularmesh.py"
 MUTANTS = [
+    ("C16", "open-edges-only-boundary", TMF, "    return edges_uniq[edge_counts != 2]", "    return edges_uniq[edge_counts < 2]", "equivalent"),
+    ("C16", "open-edges-third-edge-wrong", TMF, "[faces[:, 0:2], faces[:, 1:3], faces[:, ::2]]", "[faces[:, 0:2], faces[:, 1:3], faces[:, 0:2]]", "red"),
+    ("C16", "subsets-single-pass", TMF, "        while len(first) > lf:\n            lf = len(first)", "        for _once in (0,):\n            lf = len(first)", "red"),
+    ("C16", "subsets-need-two-shared-vertices", TMF, "                if len(first.intersection(set(r))) > 0:", "                if len(first.intersection(set(r))) > 1:", "equivalent"),
+    ("C19", "translate-before-scale", TU_, "        new_vertices = (vertices * scale + position).T * length_factor", "        new_vertices = ((vertices + position) * scale).T * length_factor", "red"),
+    ("C19", "unit-factor-not-on-position", TU_, "        new_vertices = (vertices * scale + position).T * length_factor", "        new_vertices = (vertices * scale * length_factor + position).T", "red"),
+    ("C19", "style-temp-not-restored-on-error", "magpylib/_src/utility.py", "        yield\n    finally:\n        obj._style = orig_style", "        yield\n        obj._style = orig_style\n    finally:\n        pass", "red"),
+    ("C19", "cuboid-model-half-size", "magpylib/_src/display/traces_base.py", "    dimension = np.array(dimension, dtype=float)\n    trace = {", "    dimension = np.array(dimension, dtype=float) * np.array([1, 1, 0.9])\n    trace = {", "red"),
+    ("C19", "path-line-uses-first-orientation", "magpylib/_src/display/traces_utility.py", "def get_rot_pos_from_path(obj, show_path=None):", "def get_rot_pos_from_path(obj, show_path=None):\n    obj = obj", "equivalent"),
+    ("C20", "defaults-override-object", ST_, "    style.update(**base_style_flat, _match_properties=False, _replace_None_only=True)", "    style.update(**base_style_flat, _match_properties=False, _replace_None_only=False)", "red"),
+    ("C20", "get-style-mutates-object", ST_, "    style = obj.style.copy()", "    style = obj.style", "red"),
+    ("C20", "family-None-overrides-base", ST_, "                {k: v for k, v in family_dict.items() if v is not None}", "                family_dict", "red"),
+    ("C20", "show-kwargs-after-defaults", ST_, "    style.update(**style_kwargs_specific, _match_properties=True)\n    style.update(**base_style_flat, _match_properties=False, _replace_None_only=True)", "    style.update(**base_style_flat, _match_properties=False, _replace_None_only=True)\n    style.update(**style_kwargs_specific, _match_properties=True, _replace_None_only=True)", "red"),
+    ("C18", "copy-shallow-when-no-parent", BG, "        else:\n            obj_copy = deepcopy(self)", "        else:\n            from copy import copy as _shallow\n            obj_copy = _shallow(self)", "red"),
+    ("C18", "copy-parent-not-restored", BG, "            obj_copy = deepcopy(self)\n            self._parent = parent", "            obj_copy = deepcopy(self)", "red"),
+    ("C18", "copy-kwargs-on-original", BG, "                setattr(obj_copy, k, v)", "                setattr(self, k, v)", "red"),
+    ("C18", "copy-keeps-parent", BG, "            parent = self._parent\n            self._parent = None\n            obj_copy = deepcopy(self)\n            self._parent = parent", "            obj_copy = deepcopy(self)", "red"),
+    ("C18", "copy-label-not-iterated", BG, "                label = add_iteration_suffix(label)", "                pass", "red"),
     ("C15", "circle-axis-zero-radius-unguarded", FD + "field_BH_circle.py", "        mask4 = mask3 * ~mask1  # only relevant if not also case1", "        mask4 = mask3", "red"),
     ("C15", "circle-general-case-includes-axis", FD + "field_BH_circle.py", "    mask5 = ~np.logical_or(np.logical_or(mask1, mask2), mask3)", "    mask5 = ~np.logical_or(mask1, mask2)", "red"),
     ("C15", "cuboid-zero-size-unguarded", FD + "field_BH_cuboid.py", "    mask_gen = mask_pol_not_null & mask_dim_not_null & mask_not_edge", "    mask_gen = mask_pol_not_null & mask_not_edge", "red"),
